@@ -201,6 +201,7 @@ class Ctx:
         self._model = None   # a model of side + pc, when one is known
         self.assume_fractional_floors = False   # floor(x) of a symbolic real assumes x is not an exact integer
         self.resolve_quotients = False          # x // m, x % m with numeral m: use the quotient's value when the path condition forces it
+        self.plain_pow = False                  # x ** c (non-integer c) and symbolic exponents as uninterpreted functions (congruence only)
         self._qmodel = None
 
     # -- symbolic inputs (same name => same constant on every re-execution)
@@ -613,6 +614,8 @@ class Sym:
                 k = ks.as_long()
             elif z3.is_rational_value(ks):
                 k = float(ks.as_fraction())
+            elif Ctx.cur is not None and Ctx.cur.plain_pow:
+                return Sym(uf2('pow')(real(self), real(k)))
             else:
                 raise HarnessError('symbolic exponent')
         if isinstance(k, (np.integer,)):
@@ -633,6 +636,9 @@ class Sym:
                 out = 1 / out
             return Sym(_simp(out))
         k = float(k)
+        if Ctx.cur is not None and Ctx.cur.plain_pow:
+            # congruence only: x ** c for a non-integer constant c is an uninterpreted unary function of x
+            return Sym(uf('pow_%r' % k)(real(self)))
         if k == 0.5:
             return ctx().sqrt(self)
         if k == -0.5:
@@ -642,6 +648,8 @@ class Sym:
         return ctx().pow(self, k)
 
     def __rpow__(self, base):
+        if Ctx.cur is not None and Ctx.cur.plain_pow:
+            return Sym(uf2('pow')(real(base), real(self)))
         raise HarnessError('symbolic exponent (base %r)' % (base,))
 
     # -- comparisons
@@ -1042,6 +1050,23 @@ class MathShim:
         return False if isinstance(x, Sym) else math.isnan(x)
 
     @staticmethod
+    def exp(x): return sym_math('exp', x)
+    @staticmethod
+    def log(x, *a): return sym_math('log', x) if not a else math.log(x, *a)
+    @staticmethod
+    def sin(x): return sym_math('sin', x)
+    @staticmethod
+    def cos(x): return sym_math('cos', x)
+    @staticmethod
+    def tan(x): return sym_math('tan', x)
+    @staticmethod
+    def asin(x): return sym_math('asin', x)
+    @staticmethod
+    def acos(x): return sym_math('acos', x)
+    @staticmethod
+    def atan(x): return sym_math('atan', x)
+
+    @staticmethod
     def isinf(x):
         return False if isinstance(x, Sym) else math.isinf(x)
 
@@ -1063,6 +1088,25 @@ def uf(name):
     if name not in _UF:
         _UF[name] = z3.Function('fn_' + name, z3.RealSort(), z3.RealSort())
     return _UF[name]
+
+
+def uf2(name):
+    if ('2', name) not in _UF:
+        _UF[('2', name)] = z3.Function('fn2_' + name, z3.RealSort(), z3.RealSort(), z3.RealSort())
+    return _UF[('2', name)]
+
+
+def sym_math(name, x):
+    return sym_uf(name)(x)
+
+
+def sym_pow(a, b):
+    if isinstance(a, Sym) or isinstance(b, Sym):
+        return a ** b
+    try:
+        return math.pow(a, b)
+    except (ValueError, OverflowError, ZeroDivisionError):
+        return math.nan
 
 
 def sym_uf(name):
